@@ -387,7 +387,7 @@ pub fn texts(args: &Args, rng: &mut Rng, tr: &mut Shards) -> usize {
             n += 1;
         }
     }
-    for _ in 0..args.scale(1200, 30000) {
+    for _ in 0..args.scale(1200, 50000) {
         let ty = gen_type(rng, 2);
         let ndocs = 1 + rng.below(3);
         let wild = rng.chance(30);
@@ -485,7 +485,7 @@ pub fn round_trips(args: &Args, rng: &mut Rng, tr: &mut Shards) -> (usize, usize
     let types = json_types();
     let mut n = 0;
     let mut skipped = 0;
-    for _ in 0..args.scale(800, 12000) {
+    for _ in 0..args.scale(800, 24000) {
         let ncols = 1 + rng.below(3);
         let nrows = if rng.chance(10) { 0 } else { 1 + rng.below(4) };
         let mut fields = vec![];
